@@ -98,6 +98,15 @@ def _run_case(case, ctx):
         pos = algo != "parafac"
         user_init = (None, [(np.abs(rs.standard_normal((s_, rank))) + 0.1 if pos else rs.standard_normal((s_, rank))) for s_ in shp_])
         which = which + "+fixed" + ("-last" if (len(shp_) - 1) in fm else "")
+    if algo in ("parafac", "tucker") and data["kind"] == "tensor" and unit == 1.0 and user_init is None and opts.get("init", "svd") == "svd" and not opts.get("sparsity") and rs.rand() < 0.12:
+        # counts / pixel values stored in a narrow integer dtype: the reported error is still the error relative to the norm of the data
+        idt = gen.choice(rs, ["uint8", "int16", "uint16"])
+        Xi = np.abs(data["X"])
+        Xi = np.rint(Xi / (float(np.max(Xi)) or 1.0) * float(gen.choice(rs, [50, 200, 250]))).astype(idt)
+        if np.any(Xi):
+            data = dict(data, X=Xi, cls=data["cls"] + "+" + idt)
+            which = which + "+int-dtype"
+            ctx.count("narrow_integer_data")
     desc = {"algo": algo, "data": data["cls"], "shape": data["shape"], "rank": rank, "options": which, "opts": {k: (sorted(v) if isinstance(v, set) else v) for k, v in opts.items()}}
     ctx.count("checked/%s" % algo)
     ctx.sample({"case": desc, "K": K}, 6)
